@@ -74,4 +74,19 @@ def producerLine (proto rm _seed n events : String) : String :=
     s!"ec={r.ec} recv={showRuns r.delivered}"
   | _, _, _ => "bad-op"
 
+/-- `producerx <retry-max> <n> <writes> <dials>`: the outcome script the real producer experienced
+    (`o` delivered, `l` lost, `p` broken pipe, `x` other error; `k` dial ok, `f` dial failed), as
+    reconstructed by the hook from the producer's log and the sink — the model's prediction of the
+    error counter and of what arrived on which connection -/
+def producerxLine (rm n w d : String) : String :=
+  let ws : List WOut := (if w = "-" then [] else w.toList).map fun c =>
+    match c with | 'o' => .ok | 'l' => .lost | 'p' => .errPipe | _ => .errOther
+  let ds : List DOut := (if d = "-" then [] else d.toList).map fun c =>
+    match c with | 'k' => .ok | _ => .fail
+  match rm.toNat?, n.toNat? with
+  | some rm, some n =>
+    let r := run (scriptW ws) (scriptD ds) rm (List.replicate n [])
+    s!"ec={r.ec} recv={showRuns r.delivered}"
+  | _, _ => "bad-op"
+
 end Driver
